@@ -19,16 +19,19 @@ ClassOfSign(sg, Bug) == IF MaskedSign(sg, Bug) THEN "nan"
                         ELSE "num"
 
 NoVal == <<0, 1>>
-Kernel(mode, t, L1, L2, E, Bug) ==
-    LET Lfix == IF mode = "direct" THEN L1 ELSE L2       \* leg of the supplied energy
-        Lvar == IF mode = "direct" THEN L2 ELSE L1
-        t0   == T0(Lfix, E)
+(* the kernel with the flight time t0 of the fixed-energy leg given explicitly (KinematicsInel     *)
+(* hands in a remembered t0 for its negative control "stale_t0")                                   *)
+KernelWith(mode, t, L1, L2, E, t0, Bug) ==
+    LET Lvar == IF mode = "direct" THEN L2 ELSE L1
         d    == RSub(t, t0)
         cls  == ClassOfSign(RSign(d), Bug)
         evar == IF cls = "num" THEN RDiv(RInt(Lvar * Lvar), RMul(RInt(2), RSq(d))) ELSE NoVal
     IN [cls |-> cls,
         val |-> IF cls # "num" THEN NoVal
                 ELSE IF mode = "direct" THEN RSub(E, evar) ELSE RSub(evar, E)]
+
+Lfix(mode, L1, L2) == IF mode = "direct" THEN L1 ELSE L2       \* leg of the supplied energy
+Kernel(mode, t, L1, L2, E, Bug) == KernelWith(mode, t, L1, L2, E, T0(Lfix(mode, L1, L2), E), Bug)
 
 (* ---- abstraction used to judge recorded executions -------------------------------------- *)
 (* side of a recorded arrival time relative to the exact t0:                                 *)
